@@ -68,6 +68,12 @@ def check(ctx):
                 opaque = [x.right for x in ast.walk(amt) if isinstance(x, ast.BinOp) and isinstance(x.op, ast.Sub) and parse_cap(x.left) and _opq(x.right)]
             else:
                 opaque = [x for x in ast.walk(amt) if _opq(x)]
+            helper_defect = None
+            for x in [x for x in ast.walk(amt) if isinstance(x, ast.Call) and isinstance(x.func, ast.Attribute)]:
+                helper_defect = helper_defect or _capacity_helper_defect(ctx, f, x)
+            if helper_defect:
+                o.refute(f, c, amount, helper_defect)
+                continue
             if opaque:
                 o.undecided(f, c, amount, f"reserved amount `{src(amt)[:80]}` contains `{src(opaque[0])[:40]}`, which the rule cannot resolve")
                 continue
@@ -126,6 +132,11 @@ def check(ctx):
         conds = []
         for t_, pol_ in fl.cfg.conditions(cn):
             conds += facts.split_conj(ex.expand(t_, fl.cfg.node_containing(t_), stop=stop), pol_)
+        # conditions inside the statement itself: `left -= ledger.reserve(..) if free > 0 else 0`
+        from sa.flow import eval_conditions
+        st_root = getattr(getattr(cn, 'ast', None), 'value', None)
+        for t_, pol_ in (eval_conditions(st_root, c) or []) if st_root is not None else []:
+            conds += facts.split_conj(ex.expand(t_, cn, stop=stop), pol_)
         free_pos = None
         for t, pol in conds:
             pt = sched.sign_test(t, pol)
@@ -773,6 +784,36 @@ def _row_eval(e, env):
                     return not pos          # no stored row has task None
                 return env['E'] == pos
     raise _Unknown(src(e))
+
+
+def _capacity_helper_defect(ctx, f, call):
+    """the capacity is read through a package method instead of `resource.get_available_units(day, task)`: follow it.  A method
+    that memoises the calendar answer under a key that does not contain the resource it asked hands one resource the capacity
+    another resource reported.  Returns a message, or None (not such a helper / nothing wrong recognised)"""
+    prog = ctx.prog
+    tg = [ci for ci in ctx.cg.calls_in(f) if ci.kind == 'call' and ci.targets and isinstance(ci.node, ast.Call) and same(ci.node, call)]
+    if not tg or len(tg[0].targets) != 1:
+        return None
+    h = tg[0].targets[0]
+    if isinstance(h.node, ast.Lambda) or not h.params:
+        return None
+    me = h.params[0]
+    exh = Expander(prog, h, ctx.typer)
+    for st in walk_no_nested(h.node):
+        if isinstance(st, ast.Assign) and len(st.targets) == 1 and isinstance(st.targets[0], ast.Subscript):
+            tgt = st.targets[0]
+            caps = [x for x in ast.walk(st.value) if parse_cap(x)]
+            if not caps or not (isinstance(tgt.value, ast.Attribute) and isinstance(tgt.value.value, ast.Name) and tgt.value.value.id == me):
+                continue
+            rp = caps[0] and parse_cap(caps[0])['r']
+            if not (isinstance(rp, ast.Name) and rp.id in h.params):
+                continue
+            key = exh.expand(tgt.slice, cfg_of(h).node_of(st))
+            if not any(isinstance(x, ast.Name) and x.id == rp.id for x in ast.walk(key)):
+                return (f"the capacity comes from `{src(call)[:50]}` ({h.qual}), which memoises `{src(caps[0])[:50]}` under the key `{src(key)[:50]}`: "
+                        f"the key does not contain the resource `{rp.id}`, so a resource is booked against the capacity another resource reported "
+                        f"for that day (more than its own calendar offers)")
+    return None
 
 
 def _same_day(a, b):
